@@ -12,7 +12,7 @@ RULE = ('the bus in-process (BusContext on debug-pipe, libdbus clients in the sa
         'handles the target request: for prior states reached by random histories of Hello / RequestName / ReleaseName / AddMatch (contended names, '
         'queued owners, rules present) and target requests Hello, RequestName (all decision-table rows), ReleaseName (primary and queued), AddMatch, '
         'RemoveMatch (held and not held), broadcast and unicast messages, a method reply routed between two peers (followed by a retry or by the replier leaving): every failing allocation index k (quick: up to 24 evenly spaced per target) '
-        'followed by an internal-state dump, a retry without fault, another dump and queue listings; TLC validates each run as a Bus.tla behaviour in '
+        'followed by an internal-state dump (registry queues, rule counts, owned-service counts), a retry without fault, another dump, queue listings and the disconnection of the requester; TLC validates each run as a Bus.tla behaviour in '
         'which a faulted request is either the normal action or OomAbort; non-trivial = distinct (history, target, k)')
 CONF = '''<!DOCTYPE busconfig PUBLIC "-//freedesktop//DTD D-Bus Bus Configuration 1.0//EN" "http://www.freedesktop.org/standards/dbus/1.0/busconfig.dtd">
 <busconfig>
@@ -117,7 +117,28 @@ def run(ctx):
                 ks = list(range(n)) if n <= maxk else sorted(set(int(i * (n - 1) / (maxk - 1)) for i in range(maxk)))
                 for k in ks:
                     retry = t.replace(' K ', ' -1 ')
-                    jobs.append((h + [t.replace(' K ', ' %d ' % k), 'dump', retry, 'dump'] + ['1 -1 list %s' % nm for nm in NAMES], '%s | %s | k=%d' % (' ; '.join(h[3:]), t, k)))
+                    # ... and finally the requester leaves: whatever the fault left behind must not trip the bus then
+                    jobs.append((h + [t.replace(' K ', ' %d ' % k), 'dump', retry, 'dump'] + ['1 -1 list %s' % nm for nm in NAMES]
+                                 + ['%s -1 drop' % t.split()[0], 'dump'], '%s | %s | k=%d' % (' ; '.join(h[3:]), t, k)))
+            # a release by the primary owner (alone / with a queue behind it) and by a queued owner, whatever the random history
+            # and target draw gave: the roll-back of a removed owner has its own code
+            if _ % 3 == 0:
+                for hq, tq in ((['1 -1 req com.example.A %d' % rng.randrange(8)], '1 K rel com.example.A'),
+                               (['1 -1 req com.example.A %d' % rng.choice([0, 1]), '2 -1 req com.example.A %d' % rng.choice([0, 1]),
+                                 '3 -1 req com.example.A 0'], '%d K rel com.example.A' % rng.choice([1, 1, 2]))):
+                    hh = h[:3] + hq
+                    out, rc, err = run_script(ctx.build, conf, hh + [tq.replace(' K ', ' -1 ')])
+                    if rc != 0 or not out.strip():
+                        violations.append({'signature': 'crash:busoom', 'script': hh + [tq], 'stderr': err[-2000:]})
+                        continue
+                    last = json.loads(out.strip().splitlines()[-1])
+                    n = max((o.get('allocs', 0) for ops in last['ops'] for o in ops), default=0)
+                    ks = list(range(n)) if n <= maxk else sorted(set(int(i * (n - 1) / (maxk - 1)) for i in range(maxk)))
+                    for k in ks:
+                        c = tq.split()[0]
+                        jobs.append((hh + [tq.replace(' K ', ' %d ' % k), 'dump', tq.replace(' K ', ' -1 '), 'dump', '%s -1 req com.example.B 0' % c,
+                                           'dump', '%s -1 drop' % c, 'dump', '3 -1 list com.example.A'],
+                                     '%s | %s | k=%d' % (' ; '.join(hh[3:]), tq, k)))
             # a Hello that fails half-way, then ANOTHER client's Hello: whatever the first one got, the second name is fresh
             h3 = ['1 -1 hello', '2 -1 hello'] + [x for x in h[3:] if x.split()[0] in ('1', '2')][:3]
             t3 = '3 K hello'
